@@ -12,6 +12,7 @@ macro_rules! short_lemma {
         #[cfg_attr(kani, kani::unwind(33))]
         #[cfg_attr(kani, kani::stub(chrono::Utc::now, crate::verif::rt::stub_now))]
         #[cfg_attr(kani, kani::stub(crate::decoder::get_downlink_format, super::rows::stub_get_df))]
+        #[cfg_attr(kani, kani::stub(crate::decoder::adsb::icao::get_icao, super::rows::stub_get_icao))]
         #[cfg_attr(verif_replay, test)]
         fn $name() {
             let m = frame14();
@@ -48,8 +49,11 @@ macro_rules! long_lemma {
         #[cfg_attr(kani, kani::unwind(33))]
         #[cfg_attr(kani, kani::stub(chrono::Utc::now, crate::verif::rt::stub_now))]
         #[cfg_attr(kani, kani::stub(crate::decoder::get_downlink_format, super::rows::stub_get_df))]
+        #[cfg_attr(kani, kani::stub(crate::decoder::adsb::icao::get_icao, super::rows::stub_get_icao))]
         #[cfg_attr(kani, kani::stub(crate::decoder::utils::get_message_type, super::rows::stub_get_tc))]
         #[cfg_attr(kani, kani::stub(crate::decoder::adsb::position::cpr_location, super::rows::stub_cpr_location))]
+        #[cfg_attr(kani, kani::stub(crate::decoder::adsb::position::cpr, super::rows::stub_cpr))]
+        #[cfg_attr(kani, kani::stub(crate::decoder::adsb::ais::ais, super::rows::stub_ais))]
         #[cfg_attr(verif_replay, test)]
         fn $name() {
             let m = frame28();
@@ -57,18 +61,33 @@ macro_rules! long_lemma {
             if $tc != 99 {
                 pin_tc(&m, $tc);
             }
-            let use_update = any_bool();
-            let relaxed = any_bool();
-            let mut p = any_row();
-            let Some((df, icao)) = accepted(&m) else { return };
-            p.icao = icao;
-            let before = clone_row(&p);
-            apply(&mut p, &m, df, use_update, relaxed);
-            vcover!(use_update, "-U");
-            vcover!(!use_update, "default path");
-            let post: fn(&[u32], &Plane, &Plane) = $post;
-            post(&m, &before, &p);
-            assert_unchanged_except(&before, &p, $allowed | F_BOOK);
+            // position squitters (TC 5-18) write a CPR slot: decide each parity with a constant index
+            if $tc >= 5 && $tc <= 18 {
+                if bit(&m, 54) == 0 {
+                    unsafe { PIN_F = 0 };
+                    go(&m);
+                } else {
+                    unsafe { PIN_F = 1 };
+                    go(&m);
+                }
+            } else {
+                go(&m);
+            }
+            fn go(m: &[u32; 28]) {
+                let m = *m;
+                let use_update = any_bool();
+                let relaxed = any_bool();
+                let mut p = any_row();
+                let Some((df, icao)) = accepted(&m) else { return };
+                p.icao = icao;
+                let before = clone_row(&p);
+                apply(&mut p, &m, df, use_update, relaxed);
+                vcover!(use_update, "-U");
+                vcover!(!use_update, "default path");
+                let post: fn(&[u32], &Plane, &Plane) = $post;
+                post(&m, &before, &p);
+                assert_unchanged_except(&before, &p, $allowed | F_BOOK);
+            }
         }
     };
 }
@@ -115,6 +134,7 @@ macro_rules! idem_short {
         #[cfg_attr(kani, kani::unwind(33))]
         #[cfg_attr(kani, kani::stub(chrono::Utc::now, crate::verif::rt::stub_now))]
         #[cfg_attr(kani, kani::stub(crate::decoder::get_downlink_format, super::rows::stub_get_df))]
+        #[cfg_attr(kani, kani::stub(crate::decoder::adsb::icao::get_icao, super::rows::stub_get_icao))]
         #[cfg_attr(verif_replay, test)]
         fn $name() {
             let m = frame14();
